@@ -287,6 +287,9 @@ func (trans *Transport) getConn(ctx context.Context) (conn *conn, err error) {
 			cancel()
 		}
 		trans.lock.Unlock()
+		// Abort takes the connection out of the pool before the loops end: the other
+		// loop of this connection must be stopped in that case too.
+		cancel()
 	}
 	go conn.Send(ctx, onExit)
 	go conn.Receive(ctx, onExit)
